@@ -308,6 +308,8 @@ impl<RW: QueueRW<T>, T> MultiQueue<RW, T> {
                     Some(new_transaction) => transaction = new_transaction,
                     None => {
                         let current_tag = write_cell.wraps.load(Relaxed);
+                        #[cfg(multiqueue2_verif)]
+                        crate::verif_hooks::touch(&write_cell.val as *const T);
 
                         // This will delay the dropping of the exsisting item until
                         // after the write is done. This will have a marginal effect on
@@ -347,6 +349,8 @@ impl<RW: QueueRW<T>, T> MultiQueue<RW, T> {
             fence(Acquire);
             transaction.commit_direct(1, Relaxed);
             let current_tag = write_cell.wraps.load(Relaxed);
+            #[cfg(multiqueue2_verif)]
+            crate::verif_hooks::touch(&write_cell.val as *const T);
             let _possible_drop = if RW::do_drop() && !is_tagged(current_tag) {
                 Some(ptr::read(&write_cell.val))
             } else {
@@ -398,6 +402,8 @@ impl<RW: QueueRW<T>, T> MultiQueue<RW, T> {
                         continue;
                     }
                 }
+                #[cfg(multiqueue2_verif)]
+                crate::verif_hooks::touch(&read_cell.val as *const T);
                 let rval = dependently_mut(seen_tag, &mut read_cell.val, |rc| RW::get_val(rc));
                 fence(Release);
                 if !is_single {
@@ -433,6 +439,8 @@ impl<RW: QueueRW<T>, T> MultiQueue<RW, T> {
                 }
                 return Err((op, &read_cell.wraps, TryRecvError::Empty));
             }
+            #[cfg(multiqueue2_verif)]
+            crate::verif_hooks::touch(&read_cell.val as *const T);
             dependently_mut(seen_tag, &mut read_cell.val, |rv_ref| {
                 let rval = op(rv_ref);
                 RW::drop_in_place(rv_ref);
